@@ -238,8 +238,9 @@ where
         },
         Err(e) => return relay::Result::Err(End::Client, End::Server, e),
     };
-    let outbound_stream = outbound_stream.filter_map(|r| future::ready(r.ok())).map(O::into).map(Ok);
-    let inbound_stream = inbound_stream.filter_map(|r| future::ready(r.ok())).map(InboundIn::try_into);
+    let (up, down) = (relay::Activity::default(), relay::Activity::default());
+    let outbound_stream = outbound_stream.filter_map(|r| future::ready(r.ok())).map(O::into).map(Ok).inspect(|_| down.touch());
+    let inbound_stream = inbound_stream.filter_map(|r| future::ready(r.ok())).map(InboundIn::try_into).inspect(|_| up.touch());
 
     let p_s_c = async {
         match outbound_stream.forward(inbound_sink).await {
@@ -256,22 +257,22 @@ where
     };
 
     tokio::pin!(p_s_c, c_s_p);
-    let (first, other) = tokio::select! {
-        res = &mut p_s_c => (res, futures::future::Either::Left(c_s_p)),
-        res = &mut c_s_p => (res, futures::future::Either::Right(p_s_c)),
+    let (first, other, other_activity) = tokio::select! {
+        res = &mut p_s_c => (res, futures::future::Either::Left(c_s_p), &up),
+        res = &mut c_s_p => (res, futures::future::Either::Right(p_s_c), &down),
     };
     match first {
         Ok(_) => unreachable!("should not happen"),
         Err(res @ relay::Result::Close(..)) => {
-            // One side has closed and its data and end-of-stream have been passed on. Give the peer a moment to
-            // end its side too: dropping the sockets while it is still sending resets the connection, and a reset
-            // discards what was passed on but not yet delivered.
-            let _ = tokio::time::timeout(CLOSE_GRACE, other).await;
+            // One side has closed and its data and end-of-stream have been passed on. Let the peer end its side too:
+            // dropping the sockets while it is still sending resets the connection, and a reset discards what was
+            // passed on but not yet delivered. It may take as long as it keeps sending.
+            relay::wind_down(other, other_activity, CLOSE_GRACE).await;
             res
         }
         Err(e) => e,
     }
 }
 
-/// How long the other direction may take to end after one side has closed, before the flow is torn down anyway.
+/// How long the other direction may stay silent after one side has closed, before the flow is torn down anyway.
 const CLOSE_GRACE: std::time::Duration = std::time::Duration::from_secs(2);
